@@ -292,9 +292,7 @@ func (a *AliveDialerSet) NotifyLatencyChange(dialer *Dialer, alive bool) {
 				a.minLatency.sortingLatency = time.Hour
 				a.calcMinLatency()
 				if a.minLatency.dialer == nil {
-					a.mu.Unlock()
-					a.aliveChangeCallback(false)
-					a.mu.Lock()
+					a.reportGroupAliveLocked(false)
 					if a.log.IsLevelEnabled(logrus.InfoLevel) {
 						a.log.WithFields(logrus.Fields{
 							"group":   a.dialerGroupName,
@@ -344,9 +342,7 @@ func (a *AliveDialerSet) NotifyLatencyChange(dialer *Dialer, alive bool) {
 				var oldDialerName string
 				if bakOldBestDialer == nil {
 					// Not alive -> alive
-					a.mu.Unlock()
-					a.aliveChangeCallback(true)
-					a.mu.Lock()
+					a.reportGroupAliveLocked(true)
 					re = ""
 					oldDialerName = "<nil>"
 				} else {
@@ -365,9 +361,7 @@ func (a *AliveDialerSet) NotifyLatencyChange(dialer *Dialer, alive bool) {
 				a.printLatencies()
 			} else {
 				// Alive -> not alive
-				a.mu.Unlock()
-				a.aliveChangeCallback(false)
-				a.mu.Lock()
+				a.reportGroupAliveLocked(false)
 				if a.log.IsLevelEnabled(logrus.InfoLevel) {
 					a.log.WithFields(logrus.Fields{
 						"group":   a.dialerGroupName,
@@ -383,9 +377,7 @@ func (a *AliveDialerSet) NotifyLatencyChange(dialer *Dialer, alive bool) {
 		// data-UDP node revived by traffic never has a latency sample), so the
 		// owner must hear about it just like in the measured-latency path;
 		// otherwise a connectivity bit cleared earlier stays cleared forever.
-		a.mu.Unlock()
-		a.aliveChangeCallback(true)
-		a.mu.Lock()
+		a.reportGroupAliveLocked(true)
 		if a.log.IsLevelEnabled(logrus.InfoLevel) {
 			a.log.WithFields(logrus.Fields{
 				"group":   a.dialerGroupName,
@@ -393,6 +385,24 @@ func (a *AliveDialerSet) NotifyLatencyChange(dialer *Dialer, alive bool) {
 				"dialer":  a.minLatency.dialer.property.Name,
 			}).Infof("Group selects dialer")
 		}
+	}
+}
+
+// reportGroupAliveLocked tells the owner that the group became alive / not
+// alive. The callback runs without a.mu (it may take other locks), so a
+// concurrent transition can report in between and be overtaken by this call;
+// re-check after re-locking so the last word always matches the set's state.
+// The caller holds a.mu.
+func (a *AliveDialerSet) reportGroupAliveLocked(alive bool) {
+	for {
+		a.mu.Unlock()
+		a.aliveChangeCallback(alive)
+		a.mu.Lock()
+		cur := a.minLatency.dialer != nil
+		if cur == alive {
+			return
+		}
+		alive = cur
 	}
 }
 
